@@ -220,6 +220,26 @@ fn run_decompose(case: &Value) -> Value {
     json!({"decomposed": out})
 }
 
+/// candidate of a grid case: a single job, or a Multi job {"id", "multi": [single, ..], "perms"?: [[1, 0], ..]} with an explicit list
+/// of allowed orders of its sub-jobs (FixedJobPermutation; without "perms" the given order only)
+fn cand_of(v: &Value, perms: Option<Vec<Vec<usize>>>) -> Job {
+    if v["multi"].is_null() {
+        return Job::Single(Arc::new(single_of(v)));
+    }
+    let mut b = vrp_core::prelude::MultiBuilder::default().id(&format!("m{}", i64_of(&v["id"])));
+    for s in v["multi"].as_array().unwrap().iter().map(single_of) {
+        b = b.add_job(s);
+    }
+    match perms {
+        Some(perms) => b.permutation(FixedJobPermutation::new(perms)).build_as_job().unwrap(),
+        None => b.build_as_job().unwrap(),
+    }
+}
+
+fn perms_of(v: &Value) -> Option<Vec<Vec<usize>>> {
+    v["perms"].as_array().map(|ps| ps.iter().map(|p| p.as_array().unwrap().iter().map(usize_of).collect()).collect())
+}
+
 fn run_case(case: &Value) -> Value {
     match case["op"].as_str() {
         Some("layouts") => return run_layouts(case),
@@ -234,7 +254,14 @@ fn run_case(case: &Value) -> Value {
         .iter()
         .map(|o| o["tour"].as_array().unwrap().iter().map(|a| Arc::new(single_of_act(a))).collect())
         .collect();
-    let cands: Vec<Job> = case["jobs"].as_array().unwrap().iter().map(|j| Job::Single(Arc::new(single_of(j)))).collect();
+    let cands: Vec<Job> = case["jobs"].as_array().unwrap().iter().map(|j| cand_of(j, perms_of(j))).collect();
+    // per Multi candidate with an explicit list of permutations: one sibling job per allowed permutation (that permutation only)
+    let siblings: Vec<Vec<Job>> = case["jobs"]
+        .as_array()
+        .unwrap()
+        .iter()
+        .map(|j| perms_of(j).map_or(vec![], |ps| ps.into_iter().map(|p| cand_of(j, Some(vec![p]))).collect()))
+        .collect();
     let mut jobs: Vec<Job> = route_singles.iter().flatten().map(|s| Job::Single(s.clone())).collect();
     jobs.extend(cands.iter().cloned());
     let mut vehicles = vec![];
@@ -273,15 +300,38 @@ fn run_case(case: &Value) -> Value {
         eval_job_insertion_in_route(&ctx, &eval_ctx, route_ctx, InsertionPosition::Any, acc)
     };
     // per item: full evaluation, route-level estimate, kind of the pair and the failure fields
+    let nj0 = job_refs.len().max(1);
     let per_item: Vec<Value> = items
         .iter()
-        .map(|it| {
+        .enumerate()
+        .map(|(pos, it)| {
             let viol = goal.evaluate(&MoveContext::route(&ctx.solution, it.0, it.1));
             let full = step(InsertionResult::make_failure(), it);
             let rc: Vec<Value> = unshift(goal.estimate(&MoveContext::route(&ctx.solution, it.0, it.1)).iter().collect());
             let skipped = matches!(&full, InsertionResult::Failure(f) if f.job.is_none());
             let kind = if skipped { "skip" } else if viol.is_some() { "viol" } else { "eval" };
-            json!({"full": cost_of(&full), "rc": rc, "kind": kind, "fail": fail_of(&full)})
+            // the same pair evaluated with an accumulator that holds a success strictly worse than the pair's own result (last cost
+            // component + 1): best_known_cost = Some(worse); and, for a Multi candidate, every allowed permutation on its own
+            let probe = match &full {
+                InsertionResult::Success(s) => {
+                    let mut alt: Vec<f64> = s.cost.iter().collect();
+                    if let Some(l) = alt.last_mut() {
+                        *l += 1.0;
+                    }
+                    let acc = InsertionResult::make_success(InsertionCost::new(&alt), it.1.clone(), vec![], it.0);
+                    let r = step(acc, it);
+                    json!({"alt": unshift(alt), "cost": cost_of(&r)})
+                }
+                _ => Value::Null,
+            };
+            let perm_res: Vec<Value> = siblings[pos % nj0]
+                .iter()
+                .map(|sib| {
+                    let r = step(InsertionResult::make_failure(), &(it.0, sib));
+                    json!({"cost": cost_of(&r), "fail": fail_of(&r)})
+                })
+                .collect();
+            json!({"full": cost_of(&full), "rc": rc, "kind": kind, "fail": fail_of(&full), "probe": probe, "perm_res": perm_res})
         })
         .collect();
     let fold = |xs: &[(&RouteContext, &Job)]| xs.iter().fold(InsertionResult::make_failure(), |acc, it| step(acc, it));
@@ -350,7 +400,7 @@ fn run_case(case: &Value) -> Value {
     // the REAL evaluate_and_collect_all, reached through the public RecreateWithSkipBest (skip index fixed to 2, deterministic
     // selector) and the insertion observer hook: which candidate goes into which tour at the first insertion
     // (not with two or more free vehicles: the registry offers a RANDOM one of equal-typed free vehicles per call)
-    let skip_best = if has_codes || free_desc.len() > 1 {
+    let skip_best = if has_codes || free_desc.len() > 1 || case["no_skip_best"].as_bool().unwrap_or(false) {
         Value::Null
     } else {
         use std::cell::RefCell;
